@@ -7,9 +7,12 @@
 //	                     encoder exit x every history of the pooled encoder buffer, against an
 //	                     independent reference encoder (reftree.go)
 //	B. accept=>canonical every accepted hostile input is canonical RLP and re-encodes to itself; no panic
-//	C. allocation        decoding size-lying inputs allocates O(len(input))
+//	C. allocation        decoding size-lying inputs allocates O(len(input)); C2 (alloc.go): calibrated
+//	                     per-input bound, capacity rule, three decoder entry styles
 //	D. handlers          ucon MessageHandler.HandleMsg and staking TxConverter.ApplyMessage
 //	                     (+ take-effect entry for accepted messages) return, never panic
+//	E. entry points      (entry.go) every function that enters the decoder on its own refuses
+//	                     trailing bytes / truncations / an extra list around a valid encoding
 package c14
 
 import (
@@ -18,6 +21,7 @@ import (
 	"encoding/json"
 	"fmt"
 	"hash/fnv"
+	"os"
 	"reflect"
 	"runtime"
 	"sort"
@@ -30,6 +34,7 @@ import (
 	"github.com/youchainhq/go-youchain/params"
 	"github.com/youchainhq/go-youchain/rlp"
 
+	"verif/checks/chainx"
 	"verif/mc"
 )
 
@@ -45,6 +50,7 @@ type input struct {
 	Hex   string `json:"hex,omitempty"`
 	Code  int    `json:"code,omitempty"`
 	Ctx   int    `json:"ctx,omitempty"`
+	Style int    `json:"style,omitempty"` // phase alloc2: index of the decoder entry style
 }
 
 type typeStat struct {
@@ -67,6 +73,9 @@ type checker struct {
 	// overAlloc: the allocation phase found a decoder trusting declared sizes
 	overAlloc bool
 	sampled   map[string]bool
+	alloc     *allocStats
+	// chain nodes opened by the block-import entry point (closed at the end of phase E)
+	chainNodes []*chainx.Node
 }
 
 func normMsg(m string) string {
@@ -97,7 +106,8 @@ func newChecker(r *mc.Run) *checker {
 	logging.Root().SetHandler(logging.DiscardHandler())
 	params.InitNetworkId(params.NetworkIdForTestCase)
 	ts, ctx := buildTargets(enc, dec)
-	c := &checker{r: r, targets: ts, ctx: ctx, byName: map[string]*target{}, quick: r.Quick(), best: map[string]mc.Violation{}, sampled: map[string]bool{}}
+	c := &checker{r: r, targets: ts, ctx: ctx, byName: map[string]*target{}, quick: r.Quick(), best: map[string]mc.Violation{}, sampled: map[string]bool{},
+		alloc: &allocStats{byClass: map[string]int64{}, classOwners: map[string]map[string]bool{}}}
 	c.stats = make([]typeStat, len(ts))
 	prodCap := 20000
 	if !c.quick {
@@ -308,20 +318,28 @@ func (c *checker) phaseRoundTrip() {
 		n := t.cases.size()
 		c.r.ForEach(n, func(w, i int) { c.roundTrip(t, i, true) })
 		c.r.Count("rt_cases", int64(n))
-		// mutation seeds: the baselines (and, for non-struct roots, every domain value)
-		for _, i := range t.cases.seedIndexes() {
-			if e := c.roundTrip(t, i, false); e != nil {
-				dup := false
-				for _, s := range t.seeds {
-					dup = dup || bytes.Equal(s, e)
-				}
-				if !dup {
-					t.seeds = append(t.seeds, e)
-				}
-			}
-		}
+		c.ensureSeeds(t)
 		if c.r.Expired() {
 			return
+		}
+	}
+}
+
+// ensureSeeds fills the mutation seeds of a type: the encodings of its baselines
+// (and, for non-struct roots, of every domain value).
+func (c *checker) ensureSeeds(t *target) {
+	if len(t.seeds) > 0 {
+		return
+	}
+	for _, i := range t.cases.seedIndexes() {
+		if e := c.roundTrip(t, i, false); e != nil {
+			dup := false
+			for _, s := range t.seeds {
+				dup = dup || bytes.Equal(s, e)
+			}
+			if !dup {
+				t.seeds = append(t.seeds, e)
+			}
 		}
 	}
 }
@@ -721,8 +739,11 @@ func Run(r *mc.Run) {
 	r.Rule = "S (container sizes, single-threaded, GOMAXPROCS 1): per wire/disk type holding a variable-length collection or byte string, every size of {0,1,2,255,256,257,300,1023,1024,1025} plus the two sizes around every point where the payload of the collection or of a list enclosing it crosses 56 / 256 / 65536 bytes (nested collections: every pair (n,m) of the base sizes with n*m under a per-type bound), each value encoded through every encoder exit (EncodeToBytes of pointer / of value, Encode(io.Writer), own EncodeRLP, EncodeToReader read at once / 7 bytes at a time / after another encoding, wrapped in an outer list) under every buffer history (new pooled buffer after two GC cycles, buffer that just encoded the same value, new buffer warmed by a small value, buffer that encoded the largest value of the type); every encoding must equal the encoding computed by an independent reference encoder from the type's field list, parse strictly, have the announced size, and decode (DecodeBytes, size-limited Stream, Decode from a reader) to the value; " +
 		"A (round trip): per wire/disk type, every value of the full product of per-field boundary domains (structs with <= 6 fields; domains trimmed to a prefix only when the product exceeds the tier cap) plus, around an all-zero and an all-distinct baseline, every single-field and every field-pair variation; " +
 		"B (accept => canonical): every input of a bounded RLP shape grammar (depth <= 3, <= 3 items per list, every header form incl. wrong/huge/non-minimal declared lengths, leading-zero integers), every header-form rewrite / structural edit of every item of every baseline encoding, and every single-byte mutation of every baseline encoding (every byte x every value for small encodings, 5 values per byte for large), each fed to every covered type; " +
-		"C (allocation): all size-lying inputs decoded single-threaded with MemStats.TotalAlloc deltas; D (handlers): the same payload families wrapped in signed ucon envelopes / staking messages and driven through MessageHandler.HandleMsg and TxConverter.ApplyMessage (+ take-effect for accepted messages). " +
-		"A case is non-trivial when the value encodes (A) or the hostile input is ACCEPTED by the decoder and is not the seed itself (B); distinct = distinct encodings (A) + distinct accepted hostile inputs per type (B) + distinct handler outcomes (D)"
+		"C (allocation): all size-lying inputs decoded single-threaded with MemStats.TotalAlloc deltas, in batches against 64*len + 1 MiB; " +
+		"C2 (calibrated allocation, every input measured on its own, GOMAXPROCS 1): (i) the valid encoding of every container-size case at every boundary size of S, that encoding truncated by one byte, and that encoding with the first element of the scaled list made undecodable; (ii) an honest list header over n one-byte items (80 / c0 / 01 / bf then 80) for n over the boundary sizes, 4096, 65536 (thorough: 2^20) into every type; (iii) for every item of every baseline encoding of every type the item's header rewritten to declare {len, len+1, 2^16, 2^24, 2^31, 2^32-1, 2^56-1, 2^63, 2^64-1} with the input cut after the header / after two payload bytes / after the payload / left complete and the enclosing headers untouched or declaring 2^64-1 themselves -- each through DecodeBytes, NewStream(reader, len).Decode and Decode(plain io.Reader: no input limit); oracles: no panic, every slice of the (partially) decoded value has capacity <= max(4, 2 x length), bytes allocated <= K x (len(input) + ideal in-memory size of what was decoded) + C with K, C calibrated on the unchanged tree and stated in the evidence (alloc2); " +
+		"D (handlers): the same payload families wrapped in signed ucon envelopes / staking messages and driven through MessageHandler.HandleMsg and TxConverter.ApplyMessage (+ take-effect for accepted messages); " +
+		"E (entry points): every function of the repository that turns wire / disk bytes into one of the property's objects by its own call into the decoder (inventory with covered / not covered and why in the evidence) is offered each valid encoding of a small set, that encoding followed by each suffix of {00, 80, c0, 01, ff, a second copy of the value, 1024 zero bytes}, truncated by 1..3 bytes, and wrapped in one more list -- at the outer position and at the inner payload position (envelope payload re-signed, staking message / log data / evidence list re-encoded around the varied payload); through the real MessageHandler.HandleMsg with correctly signed envelopes, TxConverter.ApplyMessage, the StateDB loaders on tries holding the planted record, the rawdb readers, p2p Msg.Decode and a real block import for header.SlashData / Evidence.Data; the entry point must act on the valid encoding and refuse every variant that is not itself a canonical value (entry points that ignore trailing bytes by design are named with the reason and counted separately). " +
+		"A case is non-trivial when the value encodes (A) or the hostile input is ACCEPTED by the decoder and is not the seed itself (B); distinct = distinct encodings (A) + distinct accepted hostile inputs per type (B) + distinct handler outcomes (D) + distinct refused (entry point, case, variant) triples (E)"
 	if r.Quick() {
 		r.SetBudget(170 * time.Second)
 	} else {
@@ -734,42 +755,71 @@ func Run(r *mc.Run) {
 	r.Assume("HandleMsg runs the real MessageHandler with a stub validator lookup (every sender is an online chamber validator) and stub consensus callbacks that only record being reached; ApplyMessage runs on a committed fixture state (two validators, one delegation) under the YouV5 test-case parameters")
 	r.Assume("take-effect entry is driven only with messages ApplyMessage accepted in the same state (production replays only recorded, previously accepted transactions)")
 	r.Assume("container-size phase: which pooled encoder buffer a call gets is controlled from outside only (runtime.GC twice empties the sync.Pool; GOMAXPROCS(1) makes the pool a single slot); elements are generated from their index with the public constructors; the reference tree of a type with a custom codec is written by hand from its documented wire format")
+	r.Assume("allocation bound: the ideal in-memory size of a decoded value is computed by walking it with reflect (slices at their LENGTH, sync.Map entries at 48 bytes + key + value); for a rejected input it is the size of the partially decoded value the decoder leaves behind, and never less than the size of the valid value the input was derived from; the constants are calibrated for the installed Go runtime (size classes, bufio default size)")
+	r.Assume("a Stream WITHOUT an input limit allocates the declared size of a STRING before reading it (make([]byte, size) in Stream.Bytes / Raw: the documented contract is that the input limit protects; production gives every untrusted input a limit -- DecodeBytes, the automatic limit for bytes.Reader / strings.Reader, Msg.Decode with msg.Size -- and uses the unlimited form only for the node's own transaction journal); on the unlimited entry style only LIST sizes lie, hostile string sizes are counted as not fed")
+	r.Assume("entry points: a function counts as accepting when it returns its value without error (readers: a non-nil result; StateDB loaders: state.New succeeds and the accessor returns the record; HandleMsg: nil error, or any consensus callback / the time judge / the relay reached; ApplyMessage: message accepted and took effect; block import: InsertChain succeeds and the block becomes the head); trie records are planted by updating the committed trie under the production key (flag || record) -- the situation after a state sync")
 	c := newChecker(r)
+	// development aid: C14_PHASES=SE runs only the named phases (S A C c(=C2) B D E); such a run is never exhaustive
+	only := os.Getenv("C14_PHASES")
+	want := func(p string) bool { return only == "" || strings.Contains(only, p) }
+	if only != "" {
+		r.Cap("development run restricted to phases " + only)
+	}
 	ts := time.Now()
 	sizeBudget := 75 * time.Second
 	if !r.Quick() {
 		sizeBudget = 20 * time.Minute
 	}
-	c.phaseSizes(ts.Add(sizeBudget))
+	if want("S") {
+		c.phaseSizes(ts.Add(sizeBudget))
+	}
 	r.SetExtra("phase_S_seconds", time.Since(ts).Seconds())
 	t0 := time.Now()
-	c.phaseRoundTrip()
+	if want("A") {
+		c.phaseRoundTrip()
+	} else {
+		for _, t := range c.targets {
+			c.ensureSeeds(t)
+		}
+	}
 	r.SetExtra("phase_A_seconds", time.Since(t0).Seconds())
 	g := buildGrammar(c.quick)
 	r.SetExtra("grammar_inputs", len(g.inputs))
 	t1 := time.Now()
-	if !r.Expired() {
+	if !r.Expired() && want("C") {
 		c.phaseAlloc(g)
 	}
 	r.SetExtra("phase_C_seconds", time.Since(t1).Seconds())
+	t1b := time.Now()
+	if !r.Expired() && !c.overAlloc && want("c") {
+		c.phaseAlloc2()
+	}
+	c.allocEvidence()
+	r.SetExtra("phase_C2_seconds", time.Since(t1b).Seconds())
 	t2 := time.Now()
 	if c.overAlloc {
 		// feeding the same size-lying inputs to 16 parallel workers would have each
 		// of them allocate gigabytes; the violation is already established
 		r.Cap("phases B and D skipped: the allocation phase found decoders that allocate what the input declares")
 	}
-	if !r.Expired() && !c.overAlloc {
+	if !r.Expired() && !c.overAlloc && want("B") {
 		c.phaseHostile(g)
 	}
-	if !r.Expired() && !c.overAlloc {
+	if !r.Expired() && !c.overAlloc && want("B") {
 		c.phaseRaw(g)
 	}
 	r.SetExtra("phase_B_seconds", time.Since(t2).Seconds())
 	t3 := time.Now()
-	if !r.Expired() && !c.overAlloc {
+	if !r.Expired() && !c.overAlloc && want("D") {
 		c.phaseHandlers(g)
 	}
 	r.SetExtra("phase_D_seconds", time.Since(t3).Seconds())
+	t4 := time.Now()
+	if !r.Expired() && want("E") {
+		c.phaseEntry()
+	}
+	r.SetExtra("phase_E_seconds", time.Since(t4).Seconds())
+	c.pruneAllocFindings()
 	c.flush()
 	per := map[string]typeStat{}
 	var vac []string
@@ -836,6 +886,13 @@ func Replay(r *mc.Run, v *mc.Violation) {
 		if d > 64*uint64(len(data))+allocPerInput {
 			c.report(v.Sig, "", in)
 		}
+	case "entry":
+		c.replayEntry(in, data)
+	case "alloc2":
+		if t := c.byName[in.Type]; t != nil {
+			c.ensureSeeds(t)
+		}
+		c.replayAlloc2(in, data)
 	case "sizes":
 		c.replaySizes(in)
 	case "handlemsg", "staking":
